@@ -13,6 +13,10 @@ open IrVerif.Passes
 #print axioms C05_toposort
 #print axioms C05_cse_skips
 #print axioms IrVerif.Inline.C05_inline_partial
+#print axioms IrVerif.Inline.C05_inline_nested_partial
+#print axioms IrVerif.Inline.C05_inline
+#print axioms IrVerif.Inline.C05_coherent
+#print axioms IrVerif.Inline.C05_coherent_lift
 #print axioms IrVerif.Inline.C05_call_depth
 #print axioms IrVerif.Inline.C05_unused_functions
 #print axioms IrVerif.Inline.C05_unused_opsets
